@@ -109,8 +109,8 @@ def run(ctx):
     for sid, lines in scripts:
         lh = [l for l in h.get(sid, []) if not l.startswith('!~')]
         accepted = sid.startswith('a') or (lh and lh[0].startswith('P '))
-        if lh and PC.env_dependent(lh[0]):
-            continue
+        if lh and PC.env_dependent(lh[0]) and not any(l.startswith('set 0 src_addr ') for l in lines):
+            continue          # (a top-level IPv4 layer whose source is never set: filled in from the routing table)
         if sid.startswith('y') and any(l.startswith('E ') for i, l in enumerate(lh) if i < len(lines) and lines[i].startswith('set ')):
             continue          # the setter refused the value
         if not accepted:
